@@ -744,7 +744,7 @@ loop:
 							r.Outcome("baseline-no-rule-accepted")
 						}
 					}
-					if len(o.Findings) == 0 && len(st.Rules) > 0 && (st.ipBlocked(f.IP) || st.peerBlocked(cl)) && nsamples < 3 && idx%29 == 0 {
+					if len(o.Findings) == 0 && len(st.Rules) > 0 && (st.ipBlocked(f.IP) || st.peerBlocked(cl)) && nsamples < 3 && shard == 0 && idx%29 == 0 {
 						nsamples++
 						r.Sample(map[string]any{"case": cs, "raw_conn": o.Raw, "handshakes_done": o.HsDone, "muxer_newconn": o.MuxNew, "hooks": o.Hooks, "accepted": o.Accepted, "verdict": "ok"})
 					}
